@@ -58,10 +58,10 @@ class LazyList:
             return 0
 
     def __eq__(self, other):
-        from vyxal.helpers import simplify
-
         if isinstance(other, list):
-            return self.listify() == simplify(other)
+            # exact comparison, item by item (turning the other side's
+            # numbers into floats made [1/3] differ from itself)
+            return self.listify() == other
         elif isinstance(other, LazyList):
             return self.listify() == other.listify()
         else:
